@@ -4,12 +4,14 @@
    One graph per Go function.  Variables are the parameters (receiver first; variables 0..k-1), the
    results, the locals and the translator's temporaries of pointer, interface, slice, map, chan or func
    type -- everything that can be nil.  Heap cells (struct fields, slice elements) are not variables:
-   reading one is [RUnknown].
+   reading one is [RAlloc], [RUnknown] or [RUnknownDirty] depending on the class of the cell (see smode).
+   The translation rules (what is TRUSTED) are listed at the top of /verif/translator/cmd/nilgen/main.go.
 
    A value is abstracted to one of three shapes.  Go has TWO notions of "nil" for an interface value:
      VNil   the nil pointer / nil slice / nil map / the nil interface      (x == nil is true)
-     VTNil  an interface holding a nil pointer ("typed nil")               (x == nil is FALSE, x.M() still
-            dereferences nil as soon as M touches its receiver)
+     VTNil t  an interface holding a nil pointer of pointer type number t ("typed nil")
+                                                                           (x == nil is FALSE, x.M() still
+            dereferences nil as soon as M touches its receiver; x.( *T) succeeds iff T is type t)
      VPtr   a usable value: non-nil pointer, or interface holding one
    Only interface-typed variables can hold VTNil; it is born by [RConv] (implicit pointer->interface
    conversion) of VNil. *)
@@ -17,7 +19,7 @@ From Coq Require Import List NArith Bool.
 Import ListNotations.
 Local Open Scope N_scope.
 
-Inductive val := VNil | VTNil | VPtr.
+Inductive val := VNil | VTNil (t : N) | VPtr.
 
 (* operand of a call / return: a variable, a certainly usable value (&T{..}, a number, a string, ...), nil *)
 Inductive arg := AV (x : N) | AGood | ANil.
@@ -26,10 +28,12 @@ Inductive rhs :=
 | RAlloc                       (* &T{..}, new, make, composite literal, constant: usable *)
 | RNil                         (* the literal nil, the zero value of `var x T` *)
 | RCopy (y : N)
-| RUnknown                     (* heap read (field, element, map), result of an external function that cannot
-                                  build a typed nil: VNil or VPtr, never VTNil (see IStore) *)
-| RUnknownDirty                (* anything: VNil, VTNil or VPtr *)
-| RConv (y : N)                (* implicit/explicit conversion pointer -> interface: VNil becomes VTNil *)
+| RUnknown                     (* read of a clean heap cell, result of an external function that cannot build a
+                                  typed nil: VNil or VPtr, never VTNil (see smode) *)
+| RUnknownDirty                (* read of a dirty heap cell, interface result of an external function:
+                                  VNil, VPtr or VTNil t for a t in p_tn *)
+| RConv (y : N) (t : N)        (* implicit/explicit conversion of a pointer of static type number t to an
+                                  interface: VNil becomes VTNil t *)
 | RNormalize (y : N)           (* Go: `if v := reflect.ValueOf(y); y == nil || (v.Kind() == reflect.Ptr && v.IsNil())
                                   { return nil }; return y` -- VTNil becomes VNil (parseStatement) *)
 | RAssert (y : N) (toiface : bool).
@@ -49,13 +53,19 @@ Inductive smode := SStrict | SClean | SDirty.
 Inductive instr :=
 | ISet (x : N) (r : rhs) (n : N)                         (* x := r *)
 | IGuard (x : N) (nn nl : N)                             (* x != nil ? nn : nl *)
-| ITypeTest (x y : N) (toiface : bool) (nok nfail : N)   (* x, ok := y.(T); ok ? nok : nfail *)
+| ITypeTest (x y : N) (toiface : bool) (tgt : option N) (nok nfail : N)
+                                                         (* x, ok := y.(T); ok ? nok : nfail.  tgt = Some t: T is the
+                                                            pointer type number t (a typed nil of another type fails
+                                                            the test, one of type t passes it and yields nil) *)
 | IUse (x : N) (site : N) (n : N)                        (* dereference of x: crashes unless x is VPtr *)
 | IStore (x : N) (m : smode) (site : N) (n : N)          (* x is written into a heap cell (field, element,
                                                             append, composite literal); see smode *)
 | ICall (f : N) (args : list arg) (rets : list (option N)) (n : N)
 | IBranch (n1 n2 : N)                                    (* data-dependent branch *)
-| IRet (rs : list arg).
+| IRet (rs : list arg)
+| IHalt.                                                 (* the run is not continued: in the C03 reading, the point
+                                                            where a parse error is recorded (C03 speaks about
+                                                            runs that return a nil error) *)
 
 (* Certificate (untrusted): per node the set nn of variables that are certainly not VNil and the set cl
    of variables that are certainly not VTNil, as bit masks; per function, for every parameter what the
@@ -64,7 +74,10 @@ Definition av := (bool * bool)%type.
 Record node := mkNode { nd_instr : instr; nd_nn : N; nd_cl : N }.
 Record fspec := mkSpec { fs_params : list av; fs_results : list av }.
 Record func := mkFunc { fn_spec : fspec; fn_body : list node }.
-Record prog := mkProg { p_funcs : list func; p_main : N }.
+(* p_tn: the pointer types of which a typed nil may exist at all (the types t of the [RConv y t] whose
+   operand is not certainly non-nil); a value read from a dirty heap cell is VNil, VPtr or VTNil t for
+   some t in p_tn. *)
+Record prog := mkProg { p_funcs : list func; p_main : N; p_tn : list N }.
 
 Definition nth_N {A : Type} (l : list A) (n : N) : option A := nth_error l (N.to_nat n).
 Definition getf (p : prog) (f : N) : option func := nth_N (p_funcs p) f.
